@@ -19,6 +19,19 @@ ASSUMPTIONS = [
 ]
 
 
+KNOWN_NOTIN = "notin-union-notin-any"
+
+
+def notin_class(*texts: str) -> bool:
+    """two reversed `"x" not in var` items on one variable among the operands / the printed result: the known finding
+    (Constraint.union treats two `not in` atoms like two `!=` atoms → Any), test-pinned"""
+    import re
+    names: list[str] = []
+    for t in texts:
+        names += re.findall(r"""(?:"[^"]*"|'[^']*')\s*not in\s*([A-Za-z_.]+)""", t or "")
+    return any(names.count(n) > 1 for n in names)
+
+
 def gen_pair(rnd: Any) -> tuple[str, str]:
     k = rnd.random()
     a = G.marker(rnd, max_leaves=rnd.choice([1, 2, 3, 4, 5]))
@@ -75,7 +88,7 @@ def oracle(ctx: core.Ctx, recs: list[dict[str, Any]], envs: list[dict[str, Any]]
                             f"result {rec['text']!r} of {case.get('op')}({a!r}, {case.get('b')!r}) raised {xr[j]} in validate", {**wit, "env": e})
                 break
             if (xr[j] == "1") != want:
-                ctx.violate(f"wrong:{case.get('op')}:{a}|{case.get('b', '')}",
+                ctx.violate(KNOWN_NOTIN if notin_class(a, case.get("b", "")) else f"wrong:{case.get('op')}:{a}|{case.get('b', '')}",
                             f"{case.get('op')}({a!r}, {case.get('b')!r}) = {rec['text']!r} is {xr[j] == '1'} on {brief(e)}, expected {want}",
                             {**wit, "env": e})
                 break
@@ -94,7 +107,7 @@ def oracle(ctx: core.Ctx, recs: list[dict[str, Any]], envs: list[dict[str, Any]]
                     ctx.violate(f"unprintable:{case.get('op')}:{a}|{case.get('b', '')}",
                                 f"result of {case.get('op')}({a!r}, {case.get('b')!r}) prints as {rec['text']!r}, which does not parse back", wit)
                 elif [c for c in MC.split_bits(t2)] != xr:
-                    ctx.violate(f"reparse-differs:{case.get('op')}:{a}|{case.get('b', '')}",
+                    ctx.violate(KNOWN_NOTIN if notin_class(rec["text"]) else f"reparse-differs:{case.get('op')}:{a}|{case.get('b', '')}",
                                 f"text {rec['text']!r} of the result evaluates differently from the result", wit)
 
 
